@@ -33,7 +33,8 @@ AllKinds == {"match",        \* parses, a described change applies, result parse
              "replaceerr"}   \* a change matches but its replacement step fails
 AllFaults == {"none", "read",        \* the target cannot be read
               "fsize",               \* file-size limit: writes of new content fail
-              "rename", "kill_rename"}  \* rename fails / process killed before the rename
+              "rename", "kill_rename",  \* rename fails / process killed before the rename
+              "missing"}             \* an extra argument names a path that does not exist (given before file f)
 
 VARIABLES kinds,    \* <<kind of file 1, ...>>  (targets in processing order)
           flags,    \* [diff, print, skipImports, skipGenerated, verbose : BOOLEAN]
@@ -57,8 +58,9 @@ Init ==
   /\ kinds \in UNION {[1..n -> Kinds] : n \in 1..MaxFiles}
   /\ flags \in Flags
   /\ fault \in {[f |-> 0, p |-> q] : q \in FaultPoints \cap {"none", "fsize"}}
-               \cup {[f |-> i, p |-> q] : i \in 1..Len(kinds), q \in FaultPoints \ {"none", "fsize"}}
-  /\ cur = 1 /\ stage = "read"
+               \cup {[f |-> i, p |-> q] : i \in 1..Len(kinds), q \in FaultPoints \ {"none", "fsize", "missing"}}
+               \cup {[f |-> i, p |-> q] : i \in 1..(Len(kinds) + 1), q \in FaultPoints \cap {"missing"}}
+  /\ cur = 1 /\ stage = "discover"
   /\ disk = [i \in 1..Len(kinds) |-> "orig"]
   /\ stdout = <<>> /\ stderr = <<>> /\ errs = <<>> /\ rerrs = <<>>
   /\ touched = {} /\ nwrites = 0 /\ exit = -1
@@ -67,6 +69,15 @@ Out(what) == stdout' = Append(stdout, [f |-> cur, what |-> what])
 Log(what) == IF flags.verbose THEN Out(what) ELSE UNCHANGED stdout
 Err(what) == errs' = Append(errs, [f |-> cur, what |-> what])
 NextFile  == cur' = cur + 1 /\ stage' = IF cur = N THEN "finish" ELSE "read"
+
+\* files, err := findFiles(cwd, patterns); if err != nil { return err }: a path that cannot
+\* be enumerated ends the run before any file is looked at; the cause is printed, exit 1
+Discover ==
+  /\ stage = "discover"
+  /\ IF fault.p = "missing"
+     THEN /\ stderr' = Append(stderr, [f |-> 0, what |-> "enumerate"]) /\ exit' = 1 /\ stage' = "done"
+     ELSE /\ stage' = "read" /\ UNCHANGED <<stderr, exit>>
+  /\ UNCHANGED <<kinds, flags, fault, cur, disk, stdout, errs, rerrs, touched, nwrites>>
 
 \* content, err := os.ReadFile(filename); if err != nil { errors = append(errors, err); continue }
 Read ==
@@ -161,7 +172,7 @@ Finish ==
   /\ stage' = "done"
   /\ UNCHANGED <<kinds, flags, fault, cur, disk, stdout, errs, rerrs, touched, nwrites>>
 
-Next == Read \/ Parse \/ Generated \/ Apply \/ FormatImports \/ EmitDiff \/ EmitPrint
+Next == Discover \/ Read \/ Parse \/ Generated \/ Apply \/ FormatImports \/ EmitDiff \/ EmitPrint
         \/ WriteTemp \/ WriteRename \/ Finish
 Spec == Init /\ [][Next]_vars /\ WF_vars(Next)
 
@@ -171,7 +182,7 @@ ReadFails(i) == fault.f = i /\ fault.p = "read"
 Unmatched(i) == ~ReadFails(i) /\ (kinds[i] = "nomatch" \/ (kinds[i] = "generated" /\ flags.skipGenerated))
 StdoutOf(i) == SelectSeq(stdout, LAMBDA r : r.f = i /\ r.what # "log")
 StderrOf(i) == SelectSeq(stderr, LAMBDA r : r.f = i)
-Processed(i) == i < cur \/ stage \in {"finish", "done"}
+Processed(i) == fault.p # "missing" /\ (i < cur \/ stage \in {"finish", "done"})
 
 \* C06 (and C18 first half): no match => no effect
 C06_NoMatchNoEffect ==
@@ -189,7 +200,7 @@ C07_EmittedParses ==
   /\ \A i \in 1..N : disk[i] # "badpatched"
   /\ \A k \in 1..Len(stdout) : stdout[k].what \notin {"badpatched", "baddiff"}
 C07_BadResultReported ==
-  stage = "done" =>
+  stage = "done" /\ fault.p # "missing" =>
      \A i \in 1..N : kinds[i] = "badresult" => exit # 0 /\ StderrOf(i) # <<>>
 
 \* C12: dry runs never write
@@ -211,12 +222,15 @@ Failed(i) == \/ kinds[i] \in {"unparseable", "replaceerr", "badresult"}
              \/ (fault.f = i /\ fault.p = "rename" /\ ~flags.diff /\ ~flags.print
                  /\ kinds[i] \in {"match", "generated"} /\ ~(kinds[i] = "generated" /\ flags.skipGenerated))
 C16_Reported ==
-  stage = "done" => \A i \in 1..N : (Failed(i) /\ Processed(i)) => exit # 0 /\ StderrOf(i) # <<>>
+  stage = "done" =>
+     /\ \A i \in 1..N : (Failed(i) /\ Processed(i)) => exit # 0 /\ StderrOf(i) # <<>>
+     \* a path that could not be processed at all is reported, with its cause
+     /\ (fault.p = "missing" => exit # 0 /\ \E k \in 1..Len(stderr) : stderr[k].what = "enumerate")
 C16_ExitZeroMeansAllDone ==
-  stage = "done" /\ exit = 0 => \A i \in 1..N : Unmatched(i) \/ disk[i] \in {"patched", "badpatched"} \/ flags.diff \/ flags.print
+  stage = "done" /\ exit = 0 => fault.p # "missing" /\ \A i \in 1..N : Unmatched(i) \/ disk[i] \in {"patched", "badpatched"} \/ flags.diff \/ flags.print
 \* an unparseable target does not change what happens to any other file
 C16_Isolation ==
-  stage = "done" =>
+  stage = "done" /\ fault.p # "missing" =>
      \A i \in 1..N : kinds[i] = "match" /\ ~Failed(i) /\ ~flags.diff /\ ~flags.print => disk[i] = "patched"
 
 \* C18: --skip-generated protects generated files, and only them
@@ -229,7 +243,7 @@ C18_OnlyThem ==
 
 \* ... a file without any marker is processed exactly as without the flag
 C18_PlainProcessed ==
-  stage = "done" =>
+  stage = "done" /\ fault.p # "missing" =>
      \A i \in 1..N : kinds[i] = "match" /\ ~Failed(i) =>
         IF flags.diff THEN \E k \in 1..Len(stdout) : stdout[k] = [f |-> i, what |-> "diff"]
         ELSE IF flags.print THEN \E k \in 1..Len(stdout) : stdout[k] = [f |-> i, what |-> "patched"]
